@@ -137,6 +137,11 @@ def _matches(f, what, replay):
     if not mt or not isinstance(replay, dict):
         return False
     for k, v in mt.items():
+        if k.endswith('__ge'):
+            rv = replay.get(k[:-4])
+            if not isinstance(rv, (int, float)) or rv < v:
+                return False
+            continue
         rv = replay.get(k)
         if isinstance(v, list):
             if rv not in v:
